@@ -58,13 +58,13 @@ def critDump (s : Sys) : Option Val :=
   | some k => k.pc.held
   | none => none
 
-/-- executions restricted to the hypotheses under which C03 is provable:
-* (F03a) no command that can delete the key but is not classified as blocking is issued;
-* (F03b) the destination installs the committed metadata only while the key-lock holder (if any)
-  owns no DUMP that it may still RESTORE. -/
+/-- executions restricted to the hypothesis under which C03 is provable (finding F03b): the
+destination installs the committed metadata only while the key-lock holder (if any) owns no DUMP
+that it may still RESTORE.  (The former hypothesis "no deleting command outside
+`requires_blocking_migration` is issued", finding F03a, is discharged by the classification
+`deletes_blocking` since fix ddfb301.) -/
 def GoodStep (s : Sys) (l : Label) : Prop :=
-  (∀ id p c, l = .inv id p c → c.deletes = true → c.blocking = true) ∧
-  (l = .commit .D → critDump s = none)
+  l = .commit .D → critDump s = none
 
 inductive ReachG (s0 : Sys) : Sys → Prop where
   | refl : ReachG s0 s0
